@@ -71,6 +71,27 @@ CLAIMED = {
                  "two genuine defects (pullup writing shared multicast memory; use-after-free/double free in evbuffer_add_buffer_reference). Byte equality through read paths is declined.",
          "note": STD_NOTE + " Assumes EVBUFFER_IMMUTABLE marks every shared/unowned chain.",
          "technique": "static analysis: who-may-call + dominance (K2/K3), dominating-guard justification of write sites (K4), release/overwrite typestate of an owning field (K11)"},
+ "C13": {"level": "other",
+         "text": "Accounting discipline on every path of buffer.c: every total_len change (33 sites: direct stores and calls to helpers inferred to leave accounting to the "
+                 "caller) is matched by the n_add_for_cb/n_del_for_cb update of the same buffer and direction, with identical amounts where both are simple; every counter "
+                 "update is followed by evbuffer_invoke_callbacks_ of that buffer; evbuffer_run_callbacks reports orig_size = total_len + n_del - n_add (linear normal form), "
+                 "clears the counters only when it reports them, filters every invocation by ENABLED masks and saves the next entry before invoking. "
+                 "Does not decide sums over whole histories with self-modifying callbacks.",
+         "note": STD_NOTE + " Buffers are identified by root variable within one function; one named and one recognised 'already empty' exception, both re-checked.",
+         "technique": "static analysis: effect pairing on CFG paths with inferred helper summaries (K5/K8), must-pass-through (K3), guard and template checks (K4/K6/K9)"},
+ "C16": {"level": "other",
+         "text": "Value provenance of the I/O amounts: evbuffer_read adds exactly the variable whose reaching definitions are read()/readv() results and commits nothing on the "
+                 "-1/0 edges; evbuffer_write_atmost drains exactly the writers' result and only when positive; writers return the syscall result; every length handed to "
+                 "write/writev/sendfile/read/readv depends on howmuch (iovec lengths guarded and howmuch reduced, exact=1 vector setup, clamps only lower howmuch). Found and "
+                 "repaired a genuine defect (sendfile ignored howmuch). Short-I/O sequences as such are not decided.",
+         "note": STD_NOTE,
+         "technique": "static analysis: reaching definitions / data dependence of syscall arguments and results (K8), dominating guards (K5)"},
+ "C12": {"level": "other",
+         "text": "Only the guard clauses of the byte-string property: every public mutation of a buffer parameter is dominated by the failed test of the matching freeze flag of "
+                 "that same buffer (23 sites), the wrap-around tests dominate the commits of evbuffer_add/prepend, chain allocations are size-checked, and the list/length fields "
+                 "are written only inside buffer.c (who-may-write over all 31 units). The bulk of C12 — contents and positions equal the model — is run-time data and is declined.",
+         "note": STD_NOTE + " Necessary conditions only; a pass says nothing about byte contents.",
+         "technique": "static analysis: dominating guards over resolved fields (K4), who-may-write (K2)"},
 }
 
 NOT_APPLICABLE = {
